@@ -19,7 +19,7 @@ OVERRIDES = K.OVERRIDES
 
 
 def caps(tier):
-    return dict(rest=50, store=3) if tier == "quick" else dict(rest=62, store=4)
+    return dict(rest=50, store=3, long_store=16) if tier == "quick" else dict(rest=62, store=4, long_store=40)
 
 
 def make_queries(tier):
@@ -76,7 +76,31 @@ def make_queries(tier):
         E.cover("a manifest was removed", z3.And(is_ok(rm), ncabx == bv(1)))
         E.cover("nothing to remove", z3.And(is_ok(rm), ncabx == bv(0)))
 
-    return [q_png_write_then_read, q_png_remove]
+    def q_png_store_content_roundtrip(E):
+        """longer stores with arbitrary content on a small asset: the bytes read back are exactly the bytes written"""
+        data, rest = K.png_input(E, 28)
+        store = E.str("store", C["long_store"], "bytes")
+        if E.mode != "symbolic":
+            w = E.native("png_write", [K_json(data), K_json(store)])
+            r = E.native("png_read", [w["out"]]) if w["ok"] else {"ok": False, "store": ""}
+            E.prove("writing a store into a valid PNG succeeds", z3.BoolVal(bool(w["ok"])))
+            E.prove("reading back returns exactly the written store (and exactly one store is present)",
+                    z3.BoolVal((not w["ok"]) or (r["ok"] and r["store"] == K_json(store))))
+            return
+        I = E.I
+        I.loop_bound = 5
+        I.buffer_cap = C["long_store"] + 2
+        valid, st, ncabx = K.valid_png(data.e, 2)
+        E.assume(valid)
+        wr, out = K.run_write(E, data, store)
+        rd = K.run_read(E, out)
+        got = rd.payload["Ok"][0] if rd.payload.get("Ok") else VStr(bstr.lit(""))
+        E.prove("writing a store into a valid PNG succeeds", is_ok(wr))
+        E.prove("reading back returns exactly the written store (and exactly one store is present)",
+                z3.Implies(is_ok(wr), z3.And(is_ok(rd), bstr.eq(got.e, store.e))))
+        E.cover("a store of at least 12 bytes", z3.And(is_ok(wr), uge(store.e.n, bv(12))))
+
+    return [q_png_write_then_read, q_png_remove, q_png_store_content_roundtrip]
 
 
 def K_json(v):
